@@ -11,7 +11,7 @@ ASSUME = [
     "deviations Align16, CappedShift, DecUpperOnly (the decoder before fix 4477a51) and NoPlusOne; the design rests on descriptors being "
     ">= 64 bytes apart, which the harness measures on every real binary (min_pitch_bytes)",
     "specs/TypeCache.tla deviation SharedSlot: two types in one slot make a call return another type's program (TLC must find it)",
-    "binding: a worker binary with thousands of generated named and unnamed types (12 per family) plus reflect.StructOf/SliceOf/MapOf/"
+    "binding: a worker binary with thousands of generated named and unnamed types (14 per family) plus reflect.StructOf/SliceOf/MapOf/"
     "ArrayOf types is built from /repo in three flavours (production, -race, position-independent: heap BELOW the type section); every "
     "type is encoded and decoded cold in a seeded order and compared with encoding/json; every return of CompileToGetCodeSet / "
     "CompileToGetDecoder is recorded by the verif hooks and TLC validates the trace against specs/TypeCacheTrace.tla (guard, index "
@@ -111,8 +111,8 @@ def run(tier, scratch, record=False):
         raise vlib.Infra("the three zones (descriptor below / inside / above the window) were not all exercised: %s" % out.counters)
     prec = dict(families=families, rounds=rounds, reflect_every=7, warm_every=9)
     cov = dict(
-        rule="%d families x 12 generated types (named struct by pointer and by value, named int32, named int with (Un)MarshalJSON, named "
-             "slice, named map, embedding struct, []*T, [2]T, map[string]T, pointer to anonymous struct, *[]T) plus 4 reflect-created "
+        rule="%d families x 14 generated types (named struct by pointer and by value, named int32, named int with (Un)MarshalJSON, named "
+             "slice, named map, embedding struct, []*T, [2]T, map[string]T, pointer to anonymous struct, *[]T, run-time []Row and map[string]Row over a function-local type whose name every family shares) plus 4 reflect-created "
              "types around every 7th, each encoded and decoded cold in a seeded order (every 9th again warm), in 3 build flavours x %d "
              "orders; non-trivial = distinct (type, build, order) uses" % (families, rounds),
         exhaustive=False, traces_validated_against_impl=nfiles, trace_events_validated=nev, windows=windows[:6])
